@@ -4,6 +4,12 @@ ENGINES = [
 ]
 NOT_YET = {}
 CHECKS = {
+    "C05": {
+        "level": "exploration",
+        "technique": "exhaustive enumeration of (font, location-lattice point, glyph) with a differential oracle (HarfBuzz) - bounded model checking of the drawing path, no sampling",
+        "text": "Every glyph of every corpus face and of the generated font pool is drawn through fontTools' glyph set and through HarfBuzz at every point of a per-axis location lattice (default, extremes, midpoints, out-of-range, avar knots); outlines are canonicalised to Bezier segment lists and compared within 0.01 unit (0.1 under variation), advances within rounding. Complete over the corpus x lattice; says nothing about locations off the lattice or fonts outside the corpus/pool.",
+        "note": "Trusted: HarfBuzz 12.1 as the independent implementation (FreeType confirmed the two fixed defects); oracles/geom.py canonicalisation. Cubic-glyf and VARC excluded (unsupported by this HarfBuzz).",
+    },
     "C15": {
         "level": "exploration",
         "technique": "exhaustive whole-domain enumeration of encoder/decoder pairs (bounded model checking of codecs, no sampling)",
